@@ -451,3 +451,66 @@ def check_shapes(engine):
     if have != want:
         raise vlib.ToolError("spec/CopyShapes.tla does not describe the driver's catalogue; regenerate it with "
                              "tools/props/copy_common.py (shapes_tla) and review (D)")
+
+
+# ------------------------------------------------------------------ TLC generated schedules
+def conf_to_scn(engine, c, steps, origin):
+    """Turn a configuration record of (D) and a step history into a driver scenario."""
+    opts = {}
+    for k in ("force", "referrers", "dtags", "inclext", "fast"):
+        if c.get(k):
+            opts[k] = 1
+    if c.get("filter") == "sbom":
+        opts["reffilter"] = AT_SBOM
+    if c.get("plats"):
+        opts["platforms"] = "linux/amd64"
+    script = [{"op": s["op"], "host": s.get("host", ""), "class": s.get("class", ""), "n": s.get("n", ""),
+               "kind": s.get("kind", "")} for s in steps]
+    return engine.scn(c["shape"], c["pair"], origin, mount=int(bool(c["mount"])), headdigest=int(bool(c["headDigest"])),
+                      refapi_src=int(bool(c["refApiSrc"])), refapi_tgt=int(bool(c["refApiTgt"])), opts=opts,
+                      bydigest=int(bool(c["byDigest"])), tgtbydigest=int(bool(c["tgtByDigest"])),
+                      init=sorted(c["init"]), tag0=c["tag0"], conc=(3 if c.get("cap") else 16), mode="script",
+                      script=script, model={"ret": None})
+
+
+def tlc_scripts(engine, cfg, n, origin, depth=400):
+    """Random behaviours of (D) (TLC -simulate, seeded) as gate scripts for the driver."""
+    ctx = engine.ctx
+    g = ctx.tlc_scenarios("ImageCopyGen", cfg, workers=1, simulate="num=%d" % n, depth=depth,
+                          extra=["-seed", str(ctx.seed)], label="generator " + cfg, timeout=900)
+    out = []
+    for s in g["scenarios"]:
+        sc = conf_to_scn(engine, s["conf"], s["steps"], origin)
+        sc["model"] = {"ret": s.get("ret"), "crashed": s.get("crashed"), "faults": s.get("faults"),
+                       "cancelled": s.get("cancelled")}
+        out.append(sc)
+    return out
+
+
+def model_agreement(pairs):
+    """How the real runs of TLC generated scripts compare with what (D) predicted (drift, not verdicts)."""
+    exact = drift = agree = differ = 0
+    notes = {}
+    for sc, t in pairs:
+        if sc.get("mode") != "script":
+            continue
+        m = t.get("meta", {})
+        if m.get("exact"):
+            exact += 1
+            want = (sc.get("model") or {}).get("ret")
+            crashed = (sc.get("model") or {}).get("crashed")
+            got = "dead" if m.get("dead") else ("err" if m.get("err") else "ok")
+            if crashed:
+                want = "dead"
+            if want == got:
+                agree += 1
+            else:
+                differ += 1
+                k = "%s/%s model=%s real=%s" % (sc["shape"], sc["pair"], want, got)
+                notes[k] = notes.get(k, 0) + 1
+        else:
+            drift += 1
+            k = "%s/%s: %s" % (sc["shape"], sc["pair"], (m.get("drift") or "")[:80])
+            notes[k] = notes.get(k, 0) + 1
+    return {"scripts_exact": exact, "scripts_drift": drift, "result_agrees": agree, "result_differs": differ,
+            "notes": dict(sorted(notes.items(), key=lambda kv: -kv[1])[:12])}
